@@ -167,8 +167,8 @@ func usePolygon(p *s2.Polygon, pts []s2.Point, cells []s2.Cell) Ans {
 
 var codecs = []*codecType{
 	{
-		name: "Point",
-		draw: func(g *gen.G) any { return g.Point() },
+		name:   "Point",
+		draw:   func(g *gen.G) any { return g.Point() },
 		encode: func(v any, w io.Writer) error { return v.(s2.Point).Encode(w) },
 		decode: func(r io.Reader) (any, error) { var p s2.Point; err := p.Decode(r); return p, err },
 		equal: func(a, b any) string {
@@ -271,8 +271,8 @@ var codecs = []*codecType{
 		},
 	},
 	{
-		name: "CellID",
-		draw: func(g *gen.G) any { return g.Cell().ID() },
+		name:   "CellID",
+		draw:   func(g *gen.G) any { return g.Cell().ID() },
 		encode: func(v any, w io.Writer) error { return v.(s2.CellID).Encode(w) },
 		decode: func(r io.Reader) (any, error) { var x s2.CellID; err := x.Decode(r); return x, err },
 		equal: func(a, b any) string {
@@ -292,8 +292,8 @@ var codecs = []*codecType{
 		},
 	},
 	{
-		name: "Cell",
-		draw: func(g *gen.G) any { return g.Cell() },
+		name:   "Cell",
+		draw:   func(g *gen.G) any { return g.Cell() },
 		encode: func(v any, w io.Writer) error { return v.(s2.Cell).Encode(w) },
 		decode: func(r io.Reader) (any, error) { var x s2.Cell; err := x.Decode(r); return x, err },
 		equal: func(a, b any) string {
@@ -380,7 +380,7 @@ var codecs = []*codecType{
 		},
 		encode: func(v any, w io.Writer) error { return v.(s2.Polyline).Encode(w) },
 		decode: func(r io.Reader) (any, error) { var x s2.Polyline; err := x.Decode(r); return x, err },
-		equal: func(a, b any) string { return eqPoints(a.(s2.Polyline), b.(s2.Polyline)) },
+		equal:  func(a, b any) string { return eqPoints(a.(s2.Polyline), b.(s2.Polyline)) },
 		use: func(v any, pts []s2.Point, cells []s2.Cell) Ans {
 			p := v.(s2.Polyline)
 			a := Ans{uint64(len(p))}
@@ -410,7 +410,7 @@ var codecs = []*codecType{
 		},
 		encode: func(v any, w io.Writer) error { return v.(*s2.Loop).Encode(w) },
 		decode: func(r io.Reader) (any, error) { x := new(s2.Loop); err := x.Decode(r); return x, err },
-		equal: func(a, b any) string { return eqLoop(a.(*s2.Loop), b.(*s2.Loop), true) },
+		equal:  func(a, b any) string { return eqLoop(a.(*s2.Loop), b.(*s2.Loop), true) },
 		use: func(v any, pts []s2.Point, cells []s2.Cell) Ans {
 			l := v.(*s2.Loop)
 			if l.NumVertices() > 200000 {
